@@ -25,7 +25,10 @@ def main():
     prop = a.prop.upper()
     mod = importlib.import_module(prop.lower())
     if a.replay:
-        return mod.replay(a.replay)
+        if hasattr(mod, "replay"):
+            return mod.replay(a.replay)
+        import replay
+        return replay.replay(a.replay)
     chk = Check(prop, a.tier)
     try:
         mod.run(chk, a.tier)
